@@ -14,11 +14,16 @@
   * After `##`: the factor entries of the code-shaped model at the same `Fp` / `Rat` point.
   * `struct=ok display=ok` (after `##`): `from_unchecked` of the result struct stores exactly the
     two factors it is given and `Display` prints them under their letters (`L:`/`D:`, `Q:`/`R:`).
+  * `consumers=ok` (after `##`): the factors handed to the library's own transposition (allocating
+    and in place) and product, through the matrix and the tensor API, give the entrywise product.
+  * element type `tr`: forward-mode dual numbers over `Fp` (`Trace<Fp>`, entries `number~derivative`);
+    the same model functions at `Dual Fp` predict value and derivative of every factor entry.
   * `f64` lines: the model answers what the specification demands of the real-number input class
     named by `<kind>`; the harness evaluates the float result against the defining identities
     with a tolerance.  No float is computed or compared here.
 -/
 import EasyMl.Model.Decomp
+import EasyMl.Model.DualElem
 import Driver.Parse
 
 namespace Driver.C08
@@ -51,10 +56,33 @@ def parseRat (s : String) : Option Rat :=
 
 def parseFp (s : String) : Option Fp := s.toNat?.map Fp.ofNat
 
+/-! ### forward-mode dual numbers over `Fp` as an element type (`Trace<Fp>`)
+
+  The decomposition models are polymorphic; instantiated at `Dual Fp` (the C05 model of
+  `Trace<T>`: trace_operations.rs; the instances are in `Model/DualElem.lean`) they predict value *and* derivative of every factor entry.
+  `==`, `<=`, `<` of a `Trace` look at the number only. -/
+
+def showDual (a : Dual Fp) : String := s!"{a.number}~{a.derivative}"
+
+def parseDual (s : String) : Option (Dual Fp) :=
+  match s.splitOn "~" with
+  | [n, d] => match parseFp n, parseFp d with
+    | some x, some y => some ⟨x, y⟩
+    | _, _ => none
+  | _ => none
+
+/-- complete equality of an element (for dual numbers: number and derivative) -/
+class FullEq (α : Type) where
+  same : α → α → Bool
+
+instance : FullEq Fp := ⟨fun a b => a.val == b.val⟩
+instance : FullEq Rat := ⟨fun a b => a == b⟩
+instance : FullEq (Dual Fp) := ⟨fun a b => a.number.val == b.number.val && a.derivative.val == b.derivative.val⟩
+
 def okS (b : Bool) : String := if b then "ok" else "bad"
 
 section
-variable {α : Type} [Add α] [Sub α] [Mul α] [Div α] [Neg α] [Zero α] [One α] [NumOrd α]
+variable {α : Type} [Add α] [Sub α] [Mul α] [Div α] [Neg α] [Zero α] [One α] [NumOrd α] [FullEq α]
 
 def showElems (sh : α → String) (l : List α) : String :=
   if l.isEmpty then "-" else ",".intercalate (l.map sh)
@@ -62,10 +90,10 @@ def showElems (sh : α → String) (l : List α) : String :=
 def allRange (n : Nat) (p : Nat → Bool) : Bool := (List.range n).all p
 
 def isLower (m : Matrix α) : Bool :=
-  allRange m.rows fun i => allRange m.columns fun j => j ≤ i || NumOrd.eq (get m i j) 0
+  allRange m.rows fun i => allRange m.columns fun j => j ≤ i || FullEq.same (get m i j) 0
 
 def isUpper (m : Matrix α) : Bool :=
-  allRange m.rows fun i => allRange m.columns fun j => i ≤ j || NumOrd.eq (get m i j) 0
+  allRange m.rows fun i => allRange m.columns fun j => i ≤ j || FullEq.same (get m i j) 0
 
 def sumRange (n : Nat) (f : Nat → α) : α := (List.range n).foldl (fun s k => s + f k) 0
 
@@ -73,15 +101,15 @@ def sumRange (n : Nat) (f : Nat → α) : α := (List.range n).foldl (fun s k =>
 def cholIdentity (L A : Matrix α) (strict : Bool) : Bool :=
   let n := L.rows
   allRange n fun i => allRange (i + 1) fun j =>
-    (strict && i == j) || NumOrd.eq (sumRange n fun k => get L i k * get L j k) (get A i j)
+    (strict && i == j) || FullEq.same (sumRange n fun k => get L i k * get L j k) (get A i j)
 
 def ldltIdentity (L D A : Matrix α) : Bool :=
   let n := L.rows
   allRange n fun i => allRange (i + 1) fun j =>
-    NumOrd.eq (sumRange n fun k => get L i k * get D k k * get L j k) (get A i j)
+    FullEq.same (sumRange n fun k => get L i k * get D k k * get L j k) (get A i j)
 
 def isUnitLower (m : Matrix α) : Bool :=
-  isLower m && allRange m.rows fun i => NumOrd.eq (get m i i) 1
+  isLower m && allRange m.rows fun i => FullEq.same (get m i i) 1
 
 def shapeS (names : List String) (m : Matrix α) : String :=
   s!"{names.getD 0 "r"}:{m.rows},{names.getD 1 "c"}:{m.columns}"
@@ -96,7 +124,7 @@ def answerChol [RealFns α] (sh : α → String) (exactSqrt : Bool) (names : Lis
         let pos := allRange L.rows fun i => NumOrd.lt 0 (get L i i)
         s!"lower={okS (isLower L)} posdiag={okS pos} ident={okS (cholIdentity L A false)}"
       else s!"lower={okS (isLower L)} offdiag={okS (cholIdentity L A true)}"
-    s!"some shape={shapeS names L} {facts} ## L={showElems sh L.data}"
+    s!"some shape={shapeS names L} {facts} ## L={showElems sh L.data} consumers=ok"
 
 def answerLdlt (sh : α → String) (names : List String) (A : Matrix α) : String :=
   match ldlt A with
@@ -104,7 +132,7 @@ def answerLdlt (sh : α → String) (names : List String) (A : Matrix α) : Stri
   | some (L, D) =>
     s!"some lshape={shapeS names L} dshape={shapeS names D} unitlower={okS (isUnitLower L)} " ++
     s!"diag={okS (isLower D && isUpper D)} ident={okS (ldltIdentity L D A)} " ++
-    s!"## L={showElems sh L.data} D={showElems sh D.data} struct=ok display=ok"
+    s!"## L={showElems sh L.data} D={showElems sh D.data} struct=ok display=ok consumers=ok"
 
 def answerQr [RealFns α] (sh : α → String) (names : List String) (A : Matrix α) : String :=
   match qr A with
@@ -145,6 +173,16 @@ def step (s : State) (toks : List String) : State × String :=
             | "chol" => (s, answerChol toString false names A)
             | "ldlt" => (s, answerLdlt toString names A)
             | "qr" => (s, answerQr toString names A)
+            | _ => (s, "bad-op")
+      else if ty = "tr" then
+        match (splitComma dataS).mapM parseDual with
+        | none => (s, "bad-op")
+        | some a =>
+          let A : Matrix (Dual Fp) := ⟨a, rows, cols⟩
+          if a.length ≠ rows * cols then (s, "bad-op")
+          else match alg with
+            | "chol" => (s, answerChol showDual false names A)
+            | "ldlt" => (s, answerLdlt showDual names A)
             | _ => (s, "bad-op")
       else if ty = "rat" then
         match (splitComma dataS).mapM parseRat with
